@@ -286,7 +286,8 @@ class World(object):
             # (only in worlds that may put nulls into non-null positions at all)
             if getattr(st, "vanishing", False) and self.p_nn and rnd.random() < 0.3:
                 return S.VANISH
-            return rnd.choice(["free", 12, 1.5, True, ["nested", 1], {"k": [1, 2]}])
+            # (1 == True == 1.0 and 0 == False == 0.0, hash-equal too: equal values need not serialise alike)
+            return rnd.choice(["free", 12, 1.5, True, ["nested", 1], {"k": [1, 2]}, 1, 1.0, True, 0, False, 0.0])
         if st.kind == "enum":
             return rnd.choice(st.values).value
         if st.kind == "object":
